@@ -6,6 +6,8 @@ SEQX_ASAN = {"name": "seqx-chan-asan", "crate": "seqx", "bin": "seqx", "kind": "
              "about": "E2 under AddressSanitizer: the quick space re-executed with every heap access checked"}
 SEQX_TOPIC = {"name": "seqx-topic", "crate": "seqx", "bin": "seqx", "kind": "verif", "args": ["--suite", "topic"],
               "about": "E2: exhaustive subscribe/unsubscribe/send/recv/clone/close/drop/convert histories on the topic channel vs a routing model"}
+LOOMX = {"name": "loomx", "crate": "loomx", "bin": "loomx", "kind": "loom", "args": [],
+         "about": "E1: loom (0.7.2, vendored with 4 documented patches guarded by a litmus self-test) exploring all interleavings up to the preemption bound of tiny 2–3 thread programs on the real channels / hybrid locks built with --cfg loom; event-log oracles"}
 POLICYX = {"name": "policyx", "crate": "policyx", "bin": "policyx", "kind": "verif", "args": [],
            "about": "E2: exhaustive call sequences on each public eviction policy vs a bookkeeping model"}
 IOCX = {"name": "iocx", "crate": "iocx", "bin": "iocx", "kind": "verif", "args": [],
@@ -63,9 +65,9 @@ CHAN_RULE = ("all histories over the per-flavour alphabet (try/blocking/batch/in
              "non-trivial = ≥1 successful send and ≥1 of {successful receive, Full, Closed, Disconnected, partial batch, Pending}")
 
 
-def chan(level_text, design_ref, extra_jobs=()):
+def chan(level_text, design_ref, extra_jobs=(), loom=True):
     return {
-        "jobs": [SEQX] + list(extra_jobs),
+        "jobs": [SEQX] + ([LOOMX] if loom else []) + list(extra_jobs),
         "level": "model_checking",
         "level_text": level_text,
         "level_note": "trusts the reference model in engines/seqx/src/chan/model.rs (≈700 lines, FIFO + handle states + pending-future nondeterminism) and the adapters; depth/handle/future bounds as reported per scenario; thread interleavings are not explored by this engine",
@@ -81,6 +83,7 @@ CHECKS = {
     "C02": chan("in every explored history without overlapping operations the channel equals a FIFO queue step by step (single, batch, in-place, across ring wrap / slab boundaries reached by warm-ups)", "§4 C02, §2 E2"),
     "C03": chan("try_send succeeds exactly when the model queue is neither full nor closed, len()/is_full()/capacity() agree with the model after every step, for capacities 1..3, rendezvous and oneshot", "§4 C03, §2 E2"),
     "C04": chan("every order of clone/close/drop/convert on ≤2 handles per side within the bound: drain then Disconnected, Closed hands the value back, closed handles reject every form, close is idempotent (point-to-point flavours and topic)", "§4 C04, §2 E2", extra_jobs=(SEQX_TOPIC,)),
+    "C05": chan("loom: every interleaving up to the preemption bound of park/notify shapes on all migrated flavours (back-pressure, consumer parks, drop vs parked peer, batch vs two parked receivers): loom's deadlock report is the oracle; seqx: a single-threaded history that the model says cannot wait must return", "§4 C05, §2 E1"),
     "C06": chan("idle-stall probe after every explored history: when no task is runnable no pending future/stream may be able to complete; cancellation at every point of every history loses/duplicates nothing", "§4 C06, §2 E2"),
     "C07": chan("sequential half: every history of sends/batches/receives/clone/close/drop/convert on the broadcast channel (1 sender, ≤2 receivers, capacities 1..3) equals the per-receiver-view model: each receiver sees every value once in order from its creation point, the sender is held back by the slowest open receiver, closing/dropping a receiver releases it", "§4 C07, §12"),
     "C08": {
@@ -108,6 +111,16 @@ CHECKS = {
         "design_ref": "§5 C15, §2 E3",
         "rule": "all schedules with ≤ bound preemptions of the programs listed in the scenarios (2–3 callers, same key / same stripe / two shards, after invalidation, stale-within-grace); every schedule re-executed on a fresh cache; non-trivial = operations of two threads overlap",
         "assumptions": ["parking_lot mutexes, atomics and channel operations inside the cache contain no scheduling point (atomic blocks)", "no spurious thread::park wakeups"],
+    },
+    "C10": {
+        "jobs": [LOOMX],
+        "level": "model_checking",
+        "level_text": "loom: every interleaving up to the preemption bound of 2–3 threads on HybridMutex / HybridRwLock (sync and async acquirers, try_*, future drop after wake) with the protected value in a loom cell: mutual exclusion, wake on release, writer gate, cancel-safe acquisition",
+        "level_note": "loom's bounded DPOR within the stated preemption bound; loom is vendored with four documented patches (RMW atomicity, park token, coroutine pool, SeqCst-load rule) that a litmus self-test guards on every run; memory-model effects loom does not model are out of scope",
+        "technique": "stateless exploration of thread interleavings of the real lock code under loom with preemption bounding",
+        "design_ref": "§4 C10, §2 E1",
+        "rule": "all loom executions of the lock shapes listed in the scenarios (2t/3t lock, sync vs async, woken future dropped, try_* under contention, reader/writer mixes, writer gate) at preemption bound 2/1 (quick) and 4/2 (thorough); non-trivial = ≥2 distinct outcomes and overlapping operations in the event log",
+        "assumptions": ["Duration::ZERO stands in for timeouts (loom has no clock)"],
     },
     "C14": {
         "jobs": [POLICYX],
